@@ -24,6 +24,7 @@ import PFV.Reach
 import PFV.Front
 import PFV.Proofs.HeapFacts
 import PFV.Proofs.ObjFacts
+import PFV.Proofs.ObjSim
 namespace PFV
 open Ref (RKind RState RMemo)
 
@@ -1300,6 +1301,21 @@ theorem obj_all_reclaimed (ver : Nat) (is : List Instr) (S : List Nat) (hne : S 
 theorem obj_stack_cells_registered (ver : Nat) (is : List Instr) :
     ∀ c ∈ (Obj.run ver is).stack, ∃ x, (Obj.run ver is).cells[c]? = some x ∧ x.arena = true :=
   Obj.run_stack_arena ver is
+
+/-- **the object model refines the simulated VM**: projected to slot kinds (the kind of every cell on the
+stack, the kind of the cell under every memo key) a run of the object model *is* the run of `Sim.process` —
+the simulated VM all other properties speak about — for every opcode sequence and all arguments; and the
+object state stays well-formed (every id on the stack, in the memo and inside a cell names an existing cell).
+So `obj_all_reclaimed` is a statement about the same runs as C01–C03/C17, not about a separate toy machine. -/
+theorem obj_refines_sim (ver : Nat) (is : List Instr) (pe : Bool) :
+    Obj.WF (Obj.run ver is) ∧
+    Obj.proj (Obj.run ver is) pe = is.foldl (fun st i => process ver st i.op i.arg) { protoEmitted := pe } :=
+  Obj.proj_run ver is pe
+
+/-- one opcode, from any well-formed object state -/
+theorem obj_step_refines_sim (ver : Nat) (s : Obj.OS) (hw : Obj.WF s) (op : Op) (arg : Arg) (pe : Bool) :
+    Obj.WF (Obj.process ver s op arg) ∧ Obj.proj (Obj.process ver s op arg) pe = process ver (Obj.proj s pe) op arg :=
+  Obj.proj_process ver s hw op arg pe
 
 /-- non-vacuity: `EMPTY_LIST DUP APPEND` really makes the list its own child in the object model (the leak of
 the pre-repair tree), `EMPTY_LIST DUP TUPLE1 APPEND POP` an unreachable two-cell ring; both are emptied by release -/
